@@ -19,10 +19,9 @@ package c09
 // (immutable(<fresh expression>), freeze, export, builtin-module table) is
 // *sealed*. A sealed store never becomes fuzzy and no model operation ever
 // writes it: that is the property. Slices, append results and sums of
-// immutable arrays are modelled as what the property demands (fresh mutable
-// arrays); they stay in the alias group of their source so that the check is
-// sound both for a tree that aliases (today: findings F14-F16) and for a
-// repaired tree that copies.
+// immutable arrays are fresh mutable arrays that share nothing with their
+// source (what the property demands; the implementation copies since the
+// repair of F14-F16), and so is the sum of two mutable arrays.
 
 import (
 	"fmt"
@@ -52,7 +51,6 @@ type astore struct {
 	fuzzy  bool
 	sealed bool
 	grp    *agroup
-	via    string // finding through which this store is linked to a sealed store
 }
 
 type mstore struct {
@@ -112,23 +110,6 @@ func (v *mval) typeName() string {
 func scalarOf(o tengo.Object) *mval { return &mval{k: kScalar, obj: o} }
 
 var undefVal = scalarOf(tengo.UndefinedValue)
-
-// taint: the finding id when a write through this (unsealed) store would, on
-// a tree that aliases instead of copying, reach sealed immutable storage.
-func (s *astore) taint() string {
-	if s.sealed {
-		return ""
-	}
-	for _, u := range s.grp.members {
-		if u.sealed {
-			if s.via != "" {
-				return s.via
-			}
-			return "F?"
-		}
-	}
-	return ""
-}
 
 type model struct {
 	h       map[string]*mval
@@ -191,7 +172,6 @@ func seal(v *mval) {
 	case kArr:
 		v.st.sealed = true
 		v.st.fuzzy = false
-		v.st.via = ""
 		v.st.grp = &agroup{members: []*astore{v.st}}
 	case kMap:
 		v.ms.sealed = true
@@ -318,54 +298,54 @@ func sortedKeys(mm map[string]*mval) []string {
 	return ks
 }
 
-// viaFor: which finding links a store derived from array x (by slicing,
-// append or +) to sealed storage.
-func viaFor(x *mval, finding string) string {
-	if x.st.sealed {
-		return finding
-	}
-	return x.st.taint()
-}
-
-// derivedStore: the store of a mutable array built from the elements of x
-// (plus extra) by an operation that - depending on capacity and on whether
-// the implementation copies - may share x's backing array.
-func (m *model) derivedStore(x *mval, lo, hi int, extra []*mval, finding string) *mval {
+// freshFrom: a new mutable array holding x[lo:hi] followed by extra, sharing
+// nothing with x.
+func (m *model) freshFrom(x *mval, lo, hi int, extra []*mval) *mval {
 	n := hi - lo + len(extra)
-	var s *astore
 	if x.st.fuzzy {
-		s = m.newStore(make([]*mval, n))
+		s := m.newStore(make([]*mval, n))
 		s.fuzzy = true
-	} else {
-		cells := make([]*mval, 0, n)
-		cells = append(cells, x.st.cells[x.off+lo:x.off+hi]...)
-		cells = append(cells, extra...)
-		s = m.newStore(cells)
+		return &mval{k: kArr, st: s, n: n}
 	}
-	s.via = viaFor(x, finding)
-	join(s, x.st)
-	return &mval{k: kArr, st: s, n: n}
+	cells := make([]*mval, 0, n)
+	cells = append(cells, x.st.cells[x.off+lo:x.off+hi]...)
+	cells = append(cells, extra...)
+	return m.newArr(cells)
 }
 
-// sliceOf: x[lo:hi] with the bounds already validated and clamped.
+// sliceOf: x[lo:hi] with the bounds already validated and clamped. A slice
+// of a mutable array is a window onto the same storage; a slice of an
+// immutable array is a mutable array of its own.
 func (m *model) sliceOf(x *mval, lo, hi int) *mval {
 	if !x.imm {
 		return &mval{k: kArr, st: x.st, off: x.off + lo, n: hi - lo}
 	}
-	return m.derivedStore(x, lo, hi, nil, "F14")
+	return m.freshFrom(x, lo, hi, nil)
 }
 
-// appendTo: append(x, extra...) / x + y on arrays. In place when capacity
-// allows: cells behind x's window may be overwritten, stores that may share
-// the backing array are unknown afterwards.
-func (m *model) appendTo(x *mval, extra []*mval, finding string) *mval {
+// appendTo: append(x, extra...). For an immutable x the result is a fresh
+// array. For a mutable x, Go's append works in place when capacity allows:
+// cells behind x's window may be overwritten, stores that may share the
+// backing array are unknown afterwards, and the result may or may not share
+// x's storage (same alias group).
+func (m *model) appendTo(x *mval, extra []*mval) *mval {
+	r := m.freshFrom(x, 0, x.n, extra)
+	if x.imm {
+		return r
+	}
 	if len(extra) > 0 {
-		if x.off+x.n < len(x.st.cells) && !x.st.sealed {
+		if x.off+x.n < len(x.st.cells) {
 			x.st.fuzzy = true
 		}
 		touch(x.st)
 	}
-	return m.derivedStore(x, 0, x.n, extra, finding)
+	join(r.st, x.st)
+	return r
+}
+
+// concat: x + y on arrays of the same kind - always a new array.
+func (m *model) concat(x, y *mval) *mval {
+	return m.freshFrom(x, 0, x.n, append([]*mval{}, y.window()...))
 }
 
 // clampSlice mirrors OpSliceIndex: lo > hi is an error before clamping.
